@@ -13,7 +13,12 @@ matrices are compared exactly and `hash(grid)` must equal xxh64 of the model's h
 Hypothesis used: `Coords.WF` — at least one dimension, and the columns of unstructured coordinates
 all have one length (otherwise the object is not a grid; `np.array_equal` on a ragged list is
 `False`).  The definitions model the code after the repairs D2, D24, D25, D26; the old behaviour
-is `sepEqOld` / `regHashInputOld`, with proved counterexamples at the end.
+is `sepEqOld` / `regHashInputOld`, with proved counterexamples at the end (section `Old`, documentation only).
+
+Floating point: the exact-rational statements (`shift_changes`, …) describe the code whenever the float
+arithmetic is exact; `shiftF_keeps_iff` / `shiftF_absorbed` state what happens in general (`Coords.shiftR`
+with a rounding function; binary64 = `roundF64`, tied bit for bit through the driver ops `shiftf`/`shiftedf`).
+NaN / ±inf remain outside the model (with NaN the real `==` is not reflexive).
 -/
 set_option linter.unusedSimpArgs false
 set_option linter.unusedVariables false
@@ -313,20 +318,21 @@ theorem shared_delta_zero_acts_once (v : Rat) (n : Nat) (f b : Rat) :
     (Coords.regular [⟨v, n, v⟩]).scale [f] = .regular [⟨v * f, n, v * f⟩] ∧
     (Coords.regular [⟨v, n, v⟩]).shift [b] = .regular [⟨v, n, v + b⟩] := ⟨rfl, rfl⟩
 
-/-! ## The code before the repairs -/
+/-! ## Old — the code before the repairs (documentation of D2 / D24; code that no longer exists in /repo:
+not evidence for the property) -/
 
 /-- D2: with the old `SeparatedCoords.__eq__` a separated grid with unequal axis lengths is not equal
 to itself. -/
-theorem eqOld_not_refl : ∃ g : Grid, g.coords.WF ∧ g.eqOld g = false :=
+theorem Old.eq_not_refl : ∃ g : Grid, g.coords.WF ∧ g.eqOld g = false :=
   ⟨⟨.cartesian, .separated [[0, 1, 2], [0, 1]], .none⟩, by decide, by decide⟩
 
 /-- … while on rectangular separated grids old and new comparison agree. -/
-theorem sepEqOld_eq_of_rect (a b : List (List Rat)) (ha : rect a = true) (hb : rect b = true) :
+theorem Old.sepEq_eq_of_rect (a b : List (List Rat)) (ha : rect a = true) (hb : rect b = true) :
     sepEqOld a b = allZip arrEq a b := by simp [sepEqOld, ha, hb]
 
 /-- D24: the old hash fed dtype-dependent bytes: an integer-typed and a float-typed regular grid
 compare equal but hash differently. -/
-theorem hashOld_int_float :
+theorem Old.hash_int_float :
     ∃ a b : List RegAxisOld, regEqOld a b = true ∧ regHashInputOld a ≠ regHashInputOld b :=
   ⟨[⟨⟨1, true⟩, 4, ⟨0, true⟩⟩], [⟨⟨1, false⟩, 4, ⟨0, false⟩⟩], by decide, by decide⟩
 
